@@ -1,9 +1,24 @@
 """property id -> rules"""
 from rules import task_constraints
+from sa.selftest import self_test_rule
+
+NOTES = ("Every check decides structural clauses (necessary conditions) of its property from /repo's source as parsed on "
+         "that run; none constructs a problem, imports processscheduler or calls a solver. Clauses outside the reach of "
+         "static analysis are listed per property in DESIGN.md section 7.")
+NOT_APPLICABLE = {}
 
 PROPERTIES = {
     "C03": {
         "rules": task_constraints.RULES,
+        "thorough": [self_test_rule("C03")],
+        "level_text": "Every TaskConstraint constructor is translated, per configuration of its Literal / optional / "
+                      "None-able fields, into the z3 term it hands to the assertion sink; that term is decided equivalent "
+                      "to the documented relation for all parameter values and all task placements (exhaustive weak-ordering "
+                      "enumeration, canonical linear atoms). Covers every schedule at once, which tests cannot.",
+        "level_note": "Decides the emitted relation per class x kind (reading: all tasks scheduled) and the count polarity of "
+                      "ScheduleNTasksInTimeIntervals; trusted: z3 returns models of what is asserted, the sorted-copy helper "
+                      "(checked under C09), the spec rows in rules/task_constraints.py (cited from docs/task_constraints.md). "
+                      "The scheduled-guard clause is decided by C06's check.",
         "explanation": "Static analysis of the constraint constructors: for every TaskConstraint subclass and every "
                        "configuration of its Literal/optional/None-able fields the z3 term that reaches the assertion "
                        "sink is reconstructed from the source (no execution) and decided equivalent to the documented "
